@@ -70,9 +70,9 @@ def check(ctx):
     # ---- S3: the point-in-time rules of C06 and no backward-looking operation in the session's cone
     for col, qn in (('Bid', 'CSVDailyBarDataSource.get_bid'), ('Ask', 'CSVDailyBarDataSource.get_ask')):
         c06.accessor(ctx, qn, col)
-    c06.converter(ctx)
-    c06.confinement(ctx)
-    c06.handler(ctx)
+    ctx.sub(c06.converter)
+    ctx.sub(c06.confinement)
+    ctx.sub(c06.handler)
     cone = M.reachable(OUTPUTS + ['CSVDailyBarDataSource.__init__'])
     nscan = 0
     for q in sorted(cone):
@@ -107,9 +107,9 @@ def check(ctx):
                               '%s in %s makes every historical price depend on later rows of the file' % (bad, q), key='C07.S3|end-relative|%s' % q)
     ctx.holds('C07.S3', 'end-relative access scan over the data source', None)
     # an order created at the 21:00 close cannot fill in the same update: the exchange is closed at its own closing instant
-    exch_at_clock_instants(ctx, 'C07.S3')
+    ctx.sub(exch_at_clock_instants, 'C07.S3')
     from . import c16
-    c16.cadence(ctx, 'C07.S3')
+    ctx.sub(c16.cadence, 'C07.S3')
 
 
 def exch_at_clock_instants(ctx, rule):
